@@ -64,6 +64,10 @@ PROGRAMS = {
                    "    pub struct X;\n    #[::entrait::entrait(ref)]\n    impl {TR}Impl for X {{\n        pub fn k(deps: %s, target: i64) -> i64 {{ target * 2 }}\n    }}\n"
                    "    pub struct App(pub X);\n    impl ::core::convert::AsRef<dyn {TR}Impl<Self>> for App {{ fn as_ref(&self) -> &(dyn {TR}Impl<Self> + 'static) {{ &self.0 }} }}" % ANY,
                    ['let app = ::entrait::Impl::new(App(X));', 'rt::out("r", {TR}::k(&app, 2));'], "4"),
+    "dyn_target_borrow": ("#[::entrait::entrait({TR}Impl, delegate_by = Borrow)]\n    pub trait {TR} {{ fn k(&self, target: i64) -> i64; }}\n"
+                          "    pub struct X;\n    #[::entrait::entrait(ref)]\n    impl {TR}Impl for X {{\n        pub fn k(deps: %s, target: i64) -> i64 {{ target * 2 }}\n    }}\n"
+                          "    pub struct App(pub X);\n    impl ::core::borrow::Borrow<dyn {TR}Impl<Self>> for App {{ fn borrow(&self) -> &(dyn {TR}Impl<Self> + 'static) {{ &self.0 }} }}" % ANY,
+                          ['let app = ::entrait::Impl::new(App(X));', 'rt::out("r", {TR}::k(&app, 2));'], "4"),
     "dyn_target_async": ("#[::entrait::entrait({TR}Impl, delegate_by = ref)]\n    #[::async_trait::async_trait]\n    pub trait {TR} {{ async fn k(&self, target: i64) -> i64; }}\n"
                          "    pub struct X;\n    #[::entrait::entrait(ref)]\n    #[::async_trait::async_trait]\n    impl {TR}Impl for X {{\n        pub async fn k(deps: %s, target: i64) -> i64 {{ target * 2 }}\n    }}\n"
                          "    pub struct App(pub X);\n    impl ::core::convert::AsRef<dyn {TR}Impl<Self> + ::core::marker::Sync> for App {{ fn as_ref(&self) -> &(dyn {TR}Impl<Self> + ::core::marker::Sync + 'static) {{ &self.0 }} }}" % ANY,
